@@ -6,10 +6,11 @@ import glob
 cfg = {os.path.basename(os.path.dirname(f)).upper(): json.load(open(f)) for f in glob.glob(os.path.join(ROOT, "harness", "c[0-9][0-9]", "check.json"))}
 props = [json.loads(l) for l in open(os.path.join(ROOT, "properties.jsonl"))]
 checks, na = [], []
+allow = set(json.load(open(os.path.join(ROOT, "registered.json"))))
 for p in props:
     cid = p["id"]
     c = cfg.get(cid)
-    if not c or not c.get("registered"):
+    if not c or not c.get("registered") or cid not in allow:
         na.append({"property_id": cid, "reason": (c or {}).get("na_reason", "check not built yet; not claimed until its monitor has been validated on the unchanged tree and against seeded breaks")})
         continue
     checks.append({
